@@ -49,14 +49,19 @@ def main():
         jobs.append((prop, bid, ov, set(base)))
     with mp.get_context("fork").Pool(min(16, max(1, len(jobs)))) as pool:
         res = pool.map(run, jobs, chunksize=1)
-    bad = 0
+    bad = opened = 0
     for bid, status, lines in res:
         if status != "silent":
+            mp_ = os.path.join(V, "benign", bid, "meta.json")
+            if os.path.exists(mp_) and prop in (json.load(open(mp_)).get("open_false_alarm") or {}):
+                print(f"{bid}: {status} — OPEN false alarm recorded in its meta.json (DESIGN.md §16)")
+                opened += 1
+                continue
             bad += 1
             print(f"{bid}: {status}")
             for ln in lines[:6]:
                 print("     ", ln)
-    print(f"== {prop}: {len(res) - bad}/{len(res)} refactorings silent")
+    print(f"== {prop}: {len(res) - bad - opened}/{len(res)} refactorings silent" + (f" ({opened} recorded open false alarm)" if opened else ""))
     return 1 if bad else 0
 
 
